@@ -15,10 +15,10 @@ Ltac wcbv := cbv [arc_from_theta_v0 theta_centre theta_pm theta_rm theta_len the
                   spec_point spec_centre rot tan w_p1 w_p2 w_a norm norm2 dot cross vadd vsub vscale vx vy vz fst snd].
 
 Lemma v0_witness_positive : 0 < vy (arc_from_theta_v0 w_p1 w_p2 4 w_a).
-Proof. wcbv. interval. Qed.
+Proof. wcbv. interval with (i_prec 40). Qed.
 
 Lemma spec_witness_negative : vy (spec_point w_p1 w_p2 4 w_a (/ 2)) < 0.
-Proof. wcbv. interval. Qed.
+Proof. wcbv. interval with (i_prec 40). Qed.
 
 Lemma v0_reflex_differs : arc_from_theta_v0 w_p1 w_p2 4 w_a <> spec_point w_p1 w_p2 4 w_a (/ 2).
 Proof.
@@ -28,5 +28,5 @@ Qed.
 
 Lemma four_in_range : 0 < Rabs 4 < 2 * PI /\ PI < 4.
 Proof.
-  rewrite Rabs_right by lra. repeat split; try lra; interval.
+  rewrite Rabs_right by lra. repeat split; try lra; interval with (i_prec 40).
 Qed.
